@@ -1,0 +1,148 @@
+//! verification hooks (compiled only with `--cfg chokan_verif`).
+//!
+//! Read-only views of the lattice, of the implementation's own node / edge /
+//! forward scores, and of the parts of a candidate.
+use dic::base::speech::Speech;
+
+use crate::{context::Context, frequency::ConversionFrequency, graph, score, Candidate, GraphDictionary};
+
+#[derive(Debug, Clone, PartialEq, Eq)]
+pub enum NodeId {
+    Bos,
+    Eos,
+    At(usize, usize),
+}
+
+#[derive(Debug, Clone)]
+pub struct NodeDump {
+    pub id: NodeId,
+    /// "word" | "virtual" | "bos" | "eos"
+    pub kind: &'static str,
+    pub surface: String,
+    pub reading: String,
+    pub speech: Option<Speech>,
+    /// forward (Viterbi) score stored in the node; None when not connectable
+    pub fscore: Option<i32>,
+}
+
+fn id_of(node: &graph::Node) -> NodeId {
+    match node {
+        graph::Node::Word(p, _, _) | graph::Node::Virtual(p, _, _) => {
+            let (i, j) = p.verif_parts();
+            NodeId::At(i, j)
+        }
+        graph::Node::Bos => NodeId::Bos,
+        graph::Node::Eos => NodeId::Eos,
+    }
+}
+
+pub fn dump_node(node: &graph::Node) -> NodeDump {
+    let fscore: Option<i32> = Option::from(score::Score::from(node.get_score()));
+    match node {
+        graph::Node::Word(_, w, _) => NodeDump {
+            id: id_of(node),
+            kind: "word",
+            surface: w.word.iter().collect(),
+            reading: w.reading.iter().collect(),
+            speech: Some(w.speech.clone()),
+            fscore,
+        },
+        graph::Node::Virtual(_, v, _) => NodeDump {
+            id: id_of(node),
+            kind: "virtual",
+            surface: v.iter().collect(),
+            reading: v.iter().collect(),
+            speech: None,
+            fscore,
+        },
+        graph::Node::Bos => NodeDump { id: NodeId::Bos, kind: "bos", surface: String::new(), reading: String::new(), speech: None, fscore },
+        graph::Node::Eos => NodeDump { id: NodeId::Eos, kind: "eos", surface: String::new(), reading: String::new(), speech: None, fscore },
+    }
+}
+
+/// One predecessor link with the implementation's own edge score.
+#[derive(Debug, Clone)]
+pub struct PredDump {
+    pub pred: NodeId,
+    pub edge_score: Option<i32>,
+}
+
+#[derive(Debug, Clone)]
+pub struct LatticeNode {
+    pub node: NodeDump,
+    pub node_score: Option<i32>,
+    pub preds: Vec<PredDump>,
+}
+
+pub struct Lattice {
+    /// nodes[i] = nodes ending at input index i
+    pub nodes: Vec<Vec<LatticeNode>>,
+    pub eos: LatticeNode,
+}
+
+fn lattice_node(g: &graph::Graph, n: &graph::Node, ctx: &Context, freq: &ConversionFrequency) -> LatticeNode {
+    let preds = g
+        .previsous_nodes(n)
+        .iter()
+        .map(|p| PredDump { pred: id_of(p), edge_score: Option::from(score::get_edge_score(ctx, p, n)) })
+        .collect();
+    LatticeNode { node: dump_node(n), node_score: Option::from(score::get_node_score(ctx, n, freq)), preds }
+}
+
+/// The lattice built for `input`; with `forward = true` after the forward pass.
+pub fn lattice(input: &str, dic: &GraphDictionary, ctx: &Context, freq: &ConversionFrequency, forward: bool) -> Lattice {
+    let mut g = graph::Graph::from_input(input, dic, ctx);
+    if forward {
+        crate::forward_dp(input, &mut g, ctx, freq);
+    }
+    let len = input.chars().count();
+    let mut nodes = Vec::new();
+    for i in 0..len {
+        let at = g.nodes_at(i);
+        nodes.push(at.iter().map(|n| lattice_node(&g, n, ctx, freq)).collect());
+    }
+    let eos = lattice_node(&g, &graph::Node::Eos, ctx, freq);
+    Lattice { nodes, eos }
+}
+
+/// The chain of a candidate from its head (BOS) to EOS, with its priority.
+pub fn candidate_nodes(c: &Candidate) -> Vec<NodeDump> {
+    let mut out = vec![dump_node(&c.current_node)];
+    let mut cur = &c.next;
+    while let Some(n) = cur {
+        out.push(dump_node(&n.current_node));
+        cur = &n.next;
+    }
+    out
+}
+
+pub fn candidate_priority(c: &Candidate) -> i32 {
+    c.priority
+}
+
+pub fn candidate_score(c: &Candidate) -> Option<i32> {
+    Option::from(c.score)
+}
+
+/// Builds a candidate chain from raw parts (for exercising the compound extractor).
+pub fn chain_from_words(words: &[(dic::base::word::Word, bool)], with_bos: bool, with_eos: bool) -> Option<Candidate> {
+    // words: (word, is_virtual); built back to front
+    let mut next: Option<Box<Candidate>> = if with_eos {
+        Some(Box::new(Candidate { current_node: graph::Node::Eos, next: None, score: Default::default(), priority: 0 }))
+    } else {
+        None
+    };
+    for (i, (w, is_virtual)) in words.iter().enumerate().rev() {
+        let p = graph::NodePointer::new(i, 0);
+        let node = if *is_virtual {
+            graph::Node::Virtual(p, w.word.clone(), Default::default())
+        } else {
+            graph::Node::Word(p, w.clone(), Default::default())
+        };
+        next = Some(Box::new(Candidate { current_node: node, next, score: Default::default(), priority: 0 }));
+    }
+    if with_bos {
+        next = Some(Box::new(Candidate { current_node: graph::Node::Bos, next, score: Default::default(), priority: 0 }));
+    }
+    next.map(|b| *b)
+}
